@@ -37,12 +37,12 @@ def main():
         "version": 1,
         "setup_cmd": "./setup.sh",
         "hooks": {
-            "guard": "cargo feature `verif` of rustemo-compiler (off by default)",
+            "guard": "cargo feature `verif` of rustemo-compiler and of rustemo (off by default)",
             "enable": "CARGO_TARGET_DIR=/verif/.cache/target cargo build --offline --manifest-path /verif/harness/Cargo.toml "
                       "(the harness depends on rustemo-compiler with features=[\"verif\"])",
             "baseline_off_cmd": "cd /repo && cargo nextest run --workspace --no-fail-fast --tool-config-file "
                                 "pb:/w/lib/nextest.toml --profile pb --test-threads 8 --offline",
-            "source_commits": ["667db2c"],
+            "source_commits": ["667db2c", "fc86d96"],
             "add_only": True,
         },
         "engines": [
